@@ -10,41 +10,43 @@ theorem pton4Go_cons (st st' : P4) (c : Nat) (r : Bytes) (h : pton4Step st c = s
     pton4Go st (c :: r) = pton4Go st' r := by
   simp [pton4Go, h]
 
-theorem step_first (oc : Nat) (dn : List Nat) (d : Nat) (hd : d < 10) (ho : oc < 4) :
-    pton4Step ⟨false, oc, dn, 0⟩ (48 + d) = some ⟨true, oc + 1, dn, d⟩ := by
+theorem step_first (oc : Nat) (dn : List Nat) (d n : Nat) (hd : d < 10) (ho : oc < 4) :
+    pton4Step ⟨false, oc, dn, 0, n⟩ (48 + d) = some ⟨true, oc + 1, dn, d, 1⟩ := by
   have e1 : 48 ≤ 48 + d ∧ 48 + d ≤ 57 := by omega
   have e2 : ¬ (255 < d) := by omega
   have e3 : ¬ (4 < oc + 1) := by omega
   simp [pton4Step, e1, e2, e3]
 
-theorem step_next (oc : Nat) (dn : List Nat) (cur d : Nat) (hd : d < 10) (hv : cur * 10 + d ≤ 255) :
-    pton4Step ⟨true, oc, dn, cur⟩ (48 + d) = some ⟨true, oc, dn, cur * 10 + d⟩ := by
+theorem step_next (oc : Nat) (dn : List Nat) (cur d n : Nat) (hd : d < 10) (hv : cur * 10 + d ≤ 255)
+    (hn : n + 1 ≤ 3) :
+    pton4Step ⟨true, oc, dn, cur, n⟩ (48 + d) = some ⟨true, oc, dn, cur * 10 + d, n + 1⟩ := by
   have e1 : 48 ≤ 48 + d ∧ 48 + d ≤ 57 := by omega
   have e2 : ¬ (255 < cur * 10 + d) := by omega
-  simp [pton4Step, e1, e2]
+  have e3 : ¬ (3 < n + 1) := by omega
+  simp [pton4Step, e1, e2, e3]
 
-theorem step_dot (oc : Nat) (dn : List Nat) (cur : Nat) (ho : oc < 4) :
-    pton4Step ⟨true, oc, dn, cur⟩ cDot = some ⟨false, oc, dn ++ [cur], 0⟩ := by
+theorem step_dot (oc : Nat) (dn : List Nat) (cur n : Nat) (ho : oc < 4) :
+    pton4Step ⟨true, oc, dn, cur, n⟩ cDot = some ⟨false, oc, dn ++ [cur], 0, 0⟩ := by
   have e3 : ¬ (oc = 4) := by omega
   simp [pton4Step, cDot, e3]
 
 /-- reading the decimal rendering of an octet -/
-theorem pton4Go_dec3 (b : Nat) (hb : b < 256) (oc : Nat) (dn : List Nat) (rest : Bytes) (ho : oc < 4) :
-    pton4Go ⟨false, oc, dn, 0⟩ (dec3 b ++ rest) = pton4Go ⟨true, oc + 1, dn, b⟩ rest := by
+theorem pton4Go_dec3 (b : Nat) (hb : b < 256) (oc : Nat) (dn : List Nat) (rest : Bytes) (n : Nat) (ho : oc < 4) :
+    pton4Go ⟨false, oc, dn, 0, n⟩ (dec3 b ++ rest) = pton4Go ⟨true, oc + 1, dn, b, (dec3 b).length⟩ rest := by
   unfold dec3
   by_cases c1 : b < 10
-  · simp only [c1, if_pos, List.cons_append, List.nil_append]
-    rw [pton4Go_cons _ _ _ _ (step_first oc dn b c1 ho)]
+  · simp only [c1, if_pos, List.cons_append, List.nil_append, List.length_cons, List.length_nil]
+    rw [pton4Go_cons _ _ _ _ (step_first oc dn b n c1 ho)]
   · by_cases c2 : b < 100
-    · simp only [c1, c2, if_pos, if_false, List.cons_append, List.nil_append]
-      rw [pton4Go_cons _ _ _ _ (step_first oc dn (b / 10) (by omega) ho)]
-      rw [pton4Go_cons _ _ _ _ (step_next (oc + 1) dn (b / 10) (b % 10) (by omega) (by omega))]
+    · simp only [c1, c2, if_pos, if_false, List.cons_append, List.nil_append, List.length_cons, List.length_nil]
+      rw [pton4Go_cons _ _ _ _ (step_first oc dn (b / 10) n (by omega) ho)]
+      rw [pton4Go_cons _ _ _ _ (step_next (oc + 1) dn (b / 10) (b % 10) 1 (by omega) (by omega) (by omega))]
       have : b / 10 * 10 + b % 10 = b := by omega
       rw [this]
-    · simp only [c1, c2, if_false, List.cons_append, List.nil_append]
-      rw [pton4Go_cons _ _ _ _ (step_first oc dn (b / 100) (by omega) ho)]
-      rw [pton4Go_cons _ _ _ _ (step_next (oc + 1) dn (b / 100) (b / 10 % 10) (by omega) (by omega))]
-      rw [pton4Go_cons _ _ _ _ (step_next (oc + 1) dn (b / 100 * 10 + b / 10 % 10) (b % 10) (by omega) (by omega))]
+    · simp only [c1, c2, if_false, List.cons_append, List.nil_append, List.length_cons, List.length_nil]
+      rw [pton4Go_cons _ _ _ _ (step_first oc dn (b / 100) n (by omega) ho)]
+      rw [pton4Go_cons _ _ _ _ (step_next (oc + 1) dn (b / 100) (b / 10 % 10) 1 (by omega) (by omega) (by omega))]
+      rw [pton4Go_cons _ _ _ _ (step_next (oc + 1) dn (b / 100 * 10 + b / 10 % 10) (b % 10) 2 (by omega) (by omega) (by omega))]
       have : (b / 100 * 10 + b / 10 % 10) * 10 + b % 10 = b := by omega
       rw [this]
 
@@ -67,22 +69,22 @@ theorem ntop4Text_no_nul (a : Bytes) : ∀ x ∈ ntop4Text a, x ≠ 0 := by
     | (subst h; decide)
 
 theorem pton4Go_ntop4 (a b c d : Nat) (ha : a < 256) (hb : b < 256) (hc : c < 256) (hd : d < 256) :
-    pton4Go P4.init (ntop4Text [a, b, c, d]) = some ⟨true, 4, [a, b, c], d⟩ := by
+    pton4Go P4.init (ntop4Text [a, b, c, d]) = some ⟨true, 4, [a, b, c], d, (dec3 d).length⟩ := by
   have htxt : ntop4Text [a, b, c, d] =
       dec3 a ++ (cDot :: (dec3 b ++ (cDot :: (dec3 c ++ (cDot :: dec3 d))))) := by
     simp [ntop4Text]
   rw [htxt]
   unfold P4.init
-  rw [pton4Go_dec3 a ha 0 [] _ (by omega)]
+  rw [pton4Go_dec3 a ha 0 [] _ 0 (by omega)]
   simp only [Nat.reduceAdd]
-  rw [pton4Go_cons _ _ _ _ (step_dot 1 [] a (by omega))]
-  rw [pton4Go_dec3 b hb 1 _ _ (by omega)]
+  rw [pton4Go_cons _ _ _ _ (step_dot 1 [] a _ (by omega))]
+  rw [pton4Go_dec3 b hb 1 _ _ 0 (by omega)]
   simp only [Nat.reduceAdd]
-  rw [pton4Go_cons _ _ _ _ (step_dot 2 _ b (by omega))]
-  rw [pton4Go_dec3 c hc 2 _ _ (by omega)]
+  rw [pton4Go_cons _ _ _ _ (step_dot 2 _ b _ (by omega))]
+  rw [pton4Go_dec3 c hc 2 _ _ 0 (by omega)]
   simp only [Nat.reduceAdd]
-  rw [pton4Go_cons _ _ _ _ (step_dot 3 _ c (by omega))]
-  have := pton4Go_dec3 d hd 3 ([] ++ [a] ++ [b] ++ [c]) [] (by omega)
+  rw [pton4Go_cons _ _ _ _ (step_dot 3 _ c _ (by omega))]
+  have := pton4Go_dec3 d hd 3 ([] ++ [a] ++ [b] ++ [c]) [] 0 (by omega)
   rw [List.append_nil] at this
   rw [this]
   simp [pton4Go]
@@ -108,7 +110,7 @@ def p4ok (st : P4) : Prop :=
   (if st.sawDigit then st.octets ≤ 4 else st.octets < 4)
 
 theorem pton4Step_ok (st st' : P4) (c : Nat) (h : pton4Step st c = some st') (hok : p4ok st) : p4ok st' := by
-  obtain ⟨sd, oc, dn, cu⟩ := st
+  obtain ⟨sd, oc, dn, cu, nd⟩ := st
   unfold p4ok at hok ⊢
   obtain ⟨h1, h2, h3, h4⟩ := hok
   simp only at h1 h2 h3 h4
@@ -132,9 +134,11 @@ theorem pton4Step_ok (st st' : P4) (c : Nat) (h : pton4Step st c = some st') (ho
           · simp only [if_true]; omega
       | true =>
         simp only [Bool.not_true, Bool.false_eq_true, if_false] at h
-        cases h
-        dsimp only
-        exact ⟨h1, by omega, h3, h4⟩
+        split at h
+        · cases h
+        · cases h
+          dsimp only
+          exact ⟨h1, by omega, h3, h4⟩
   · split at h
     · next hc =>
       split at h
